@@ -25,8 +25,11 @@ Ties to the code
     (returned, or dropped by `return nil`) — consumed by `active`, `hasCheck`, `hasSwallow`, `checkExt`;
   * table `Gen.paramStyles` / `Gen.paramStyleDefaults` / `Gen.headerStyles` / `Gen.encodingStyles` (regenerated):
     compared with `smSupported` / `smOf` / `encSmOf` (the OpenAPI 3.0 style table) by `decide` in Props/C04.lean;
-  * everything hand-transcribed (the order and content of the local checks, `structGuard`) is validated by
-    the differential run against `(*openapi3.T).Validate`.
+  * the structural conditions that dominate a call (`if schema != nil { … }`, the else branch of
+    `if example != nil`, accepting early returns) are part of the table as well ("@…" literals): the ones that
+    only test the call's own operand are dropped (`benign`), the others are read against the node's attributes;
+  * everything hand-transcribed (the order and content of the local checks) is validated by the differential
+    run against `(*openapi3.T).Validate`.
 
 What is abstracted
   * `VisitJSON` of a default / example value is modelled on the fragment "scalar value against a schema
@@ -192,6 +195,14 @@ theorem Reach.mono {act act' : Act} (h : ∀ k a p, act k a p = true → act' k 
 
 /-! ## The regenerated table and its interpretation -/
 
+def isPrefix : List Char → List Char → Bool
+  | [], _ => true
+  | _ :: _, [] => false
+  | a :: as, b :: bs => a = b && isPrefix as bs
+def isInfix (p : List Char) : List Char → Bool
+  | [] => p.isEmpty
+  | c :: cs => isPrefix p (c :: cs) || isInfix p cs
+
 /-- one interpreted fact of the table -/
 inductive Item
   | edge (k : Kind) (pos : String) (guards : List String)
@@ -284,17 +295,29 @@ def exampleCheckOfVia : String → Option String
   | "schema @ schema.Example" => some "example"
   | _ => none
 
-/-- a literal `L?` says: reached when `L` holds; when `L` fails only on the structural paths that avoid an
-earlier accepting `return` — read pessimistically as `L` -/
+/-- a structural literal of the table ("@…") that only tests the call's own operand, and therefore holds
+whenever the corresponding kid / value exists in the model tree: `@nonnil:P` where `P` is part of the
+operand path of the call (`header.Schema` for `header.Schema.Validate`, the receiver `mediaType` for everything
+in `MediaType.Validate`, `x.Value` in the reference wrappers). Two more are dropped for a stated reason:
+`@not:cond:existing == schema` (the cycle guard of `Schema.validate`: model trees are acyclic) and
+`@cond:hasFlow` (`SecurityScheme.Validate` visits `flows` for type oauth2 only; for any other type the presence
+of `flows` is rejected by the local check, so the verdict is the same). -/
+def benign (via : String) (g : String) : Bool :=
+  g = "@not:cond:existing == schema" || g = "@cond:hasFlow" ||
+  (isPrefix "@nonnil:".toList g.toList && isInfix (g.toList.drop 8) via.toList)
+
+/-- the literals the model can read: option flags, and the structural conditions on `schema` / `example` -/
 def knownGuard : String → Bool
   | "+examplesValidationDisabled" | "-examplesValidationDisabled"
   | "+schemaDefaultsValidationDisabled" | "-schemaDefaultsValidationDisabled"
-  | "+examplesValidationDisabled?" | "-examplesValidationDisabled?"
-  | "+schemaDefaultsValidationDisabled?" | "-schemaDefaultsValidationDisabled?" => true
+  | "@nonnil:parameter.Schema" | "@nonnil:mediaType.Schema" | "@nonnil:header.Schema"
+  | "@isnil:parameter.Schema" | "@isnil:mediaType.Schema" | "@isnil:header.Schema"
+  | "@nonnil:parameter.Example" | "@isnil:parameter.Example" => true
   | _ => false
 
 open KinModel.Gen in
-def interp (r : DescentRow) : Option (List Item) :=
+def interp (r0 : DescentRow) : Option (List Item) :=
+  let r : DescentRow := { r0 with guards := r0.guards.filter (fun g => !benign r0.via g) }
   if !(r.guards.all knownGuard) then none else
   match kindOfGo r.src with
   | none => none
@@ -335,41 +358,43 @@ def tableOf (rows : List Gen.DescentRow) : Table :=
 /-- the table of the code under test -/
 def codeTable : Table := tableOf Gen.descent
 
-def litHolds (o : Opts) : String → Bool
+def litHolds (o : Opts) (a : Attrs) : String → Bool
   | "+examplesValidationDisabled" => o.exDisabled
   | "-examplesValidationDisabled" => !o.exDisabled
   | "+schemaDefaultsValidationDisabled" => o.defDisabled
   | "-schemaDefaultsValidationDisabled" => !o.defDisabled
-  | "+examplesValidationDisabled?" => o.exDisabled
-  | "-examplesValidationDisabled?" => !o.exDisabled
-  | "+schemaDefaultsValidationDisabled?" => o.defDisabled
-  | "-schemaDefaultsValidationDisabled?" => !o.defDisabled
+  | "@nonnil:parameter.Schema" | "@nonnil:mediaType.Schema" | "@nonnil:header.Schema" => a.flag "hasSchema"
+  | "@isnil:parameter.Schema" | "@isnil:mediaType.Schema" | "@isnil:header.Schema" => !a.flag "hasSchema"
+  | "@nonnil:parameter.Example" => a.flag "hasExample"
+  | "@isnil:parameter.Example" => !a.flag "hasExample"
   | _ => false
-def guardsHold (o : Opts) (gs : List String) : Bool := gs.all (litHolds o)
+def guardsHold (o : Opts) (a : Attrs) (gs : List String) : Bool := gs.all (litHolds o a)
 
 /-- guard lists of all rows of the table for (kind, name) -/
 def rowsFor (l : List (Kind × String × List String)) (k : Kind) (n : String) : List (List String) :=
   (l.filter (fun e => e.1 = k && e.2.1 = n)).map (·.2.2)
 
-/-- some row for (kind, name) has all its option guards satisfied -/
-def anyHolds (o : Opts) (gss : List (List String)) : Bool := gss.any (guardsHold o)
+/-- some row for (kind, name) has all its guards satisfied (option flags, structural conditions on the node) -/
+def anyHolds (o : Opts) (a : Attrs) (gss : List (List String)) : Bool := gss.any (guardsHold o a)
 
-/-- under every option set some row for the check has all its guards satisfied (the guards read two flags) -/
-def alwaysHolds (gss : List (List String)) : Bool :=
-  [false, true].all fun e => [false, true].all fun d => anyHolds { exDisabled := e, defDisabled := d } gss
+/-- the four facts a literal can read: the two option flags, whether the node has a schema, an example -/
+def mkO (e d : Bool) : Opts := { exDisabled := e, defDisabled := d }
+def mkA (s x : Bool) : Attrs := { flags := (if s then ["hasSchema"] else []) ++ (if x then ["hasExample"] else []) }
 
-/-- structural guards of edges that the table does not carry (hand-modelled; validated by the
-differential run): the `examples` of a parameter / media type / header are visited only when a schema is given -/
-def structGuard (k : Kind) (a : Attrs) (pos : String) : Bool :=
-  if (k = .parameter || k = .mediaType || k = .header) && pos = "examples" then a.flag "hasSchema" else true
+/-- the rows hold exactly when `f` says so, decided over the sixteen valuations of the four facts -/
+def holdsAs (gss : List (List String)) (f : Bool → Bool → Bool → Bool → Bool) : Bool :=
+  [false, true].all fun e => [false, true].all fun d => [false, true].all fun s => [false, true].all fun x =>
+    anyHolds (mkO e d) (mkA s x) gss == f e d s x
 
-def active (T : Table) (o : Opts) : Act := fun k a pos =>
-  anyHolds o (rowsFor T.edges k pos) && structGuard k a pos
+/-- under every option set and whatever the node has, some row has all its guards satisfied -/
+def alwaysHolds (gss : List (List String)) : Bool := holdsAs gss (fun _ _ _ _ => true)
 
-def hasCheck (T : Table) (o : Opts) (k : Kind) (n : String) : Bool := anyHolds o (rowsFor T.checks k n)
+def active (T : Table) (o : Opts) : Act := fun k a pos => anyHolds o a (rowsFor T.edges k pos)
+
+def hasCheck (T : Table) (o : Opts) (a : Attrs) (k : Kind) (n : String) : Bool := anyHolds o a (rowsFor T.checks k n)
 
 /-- the method makes this child call / check but answers nil when it fails -/
-def hasSwallow (T : Table) (o : Opts) (k : Kind) (n : String) : Bool := anyHolds o (rowsFor T.swallows k n)
+def hasSwallow (T : Table) (o : Opts) (a : Attrs) (k : Kind) (n : String) : Bool := anyHolds o a (rowsFor T.swallows k n)
 
 /-! ## Small string functions (on `List Char`, so that `decide` can evaluate witnesses) -/
 
@@ -381,14 +406,6 @@ def identChar (c : Char) : Bool :=
 def identOK (s : String) : Bool := !s.toList.isEmpty && s.toList.all identChar
 
 def countChar (c : Char) (s : List Char) : Nat := (s.filter (· = c)).length
-
-def isPrefix : List Char → List Char → Bool
-  | [], _ => true
-  | _ :: _, [] => false
-  | a :: as, b :: bs => a = b && isPrefix as bs
-def isInfix (p : List Char) : List Char → Bool
-  | [] => p.isEmpty
-  | c :: cs => isPrefix p (c :: cs) || isInfix p cs
 
 /-- state of `normalizeTemplatedPath`'s loop: (template so far reversed, last appended char,
 inside a variable, variable so far reversed, variables, count) -/
@@ -448,6 +465,7 @@ def schemaAttrsAt (d : Doc) : Option Attrs :=
 /-- the example objects of the `examples` map of a parameter / media type / header, through resolved
 example references (`v.Value`) -/
 def exampleEntries (d : Doc) : List Attrs :=
+  if !d.attrs.flag "hasExamples" then [] else          -- `Examples == nil`: nothing to range over
   (d.kidsAt "examples").filterMap (fun r =>
     if r.kind = .exampleRef then
       (match r.kidsAt "value" with
@@ -490,7 +508,7 @@ def extKeysOK (o : Opts) (exts : List String) : Bool := exts.all (fun k => isExt
 
 /-- `validateExtensions(ctx, x.Extensions)` if the method calls it (table) under guards that hold -/
 def checkExt (T : Table) (o : Opts) (d : Doc) : Bool :=
-  if hasCheck T o d.kind "extensions" then extKeysOK o d.attrs.exts else true
+  if hasCheck T o d.attrs d.kind "extensions" then extKeysOK o d.attrs.exts else true
 
 /-- `*Ref.Validate`: sibling keys of `$ref`, then resolved -/
 def refSibsOK (o : Opts) (a : Attrs) : Bool :=
@@ -554,8 +572,8 @@ def examplesGivenOK (d : Doc) : Bool := (examplesValsGiven d).all (valOK (schema
 
 /-- example / examples of a parameter or media type against `schema.Value` -/
 def exampleValuesOK (T : Table) (o : Opts) (d : Doc) : Bool :=
-  (if hasCheck T o d.kind "example" then exampleOK d else true) &&
-  (if hasCheck T o d.kind "examples" then examplesOK d else true)
+  (if hasCheck T o d.attrs d.kind "example" then exampleOK d else true) &&
+  (if hasCheck T o d.attrs d.kind "examples" then examplesOK d else true)
 
 def parameterOKCode (T : Table) (o : Opts) (d : Doc) : Bool :=
   let a := d.attrs
@@ -600,8 +618,8 @@ def encodingStyleOK (a : Attrs) : Bool := smSupported "query" (encSmOf a).1 (enc
 validation fails, makes the method answer nil at once (the table says which of the two errors are dropped) -/
 def encHeadersBad (T : Table) (o : Opts) (d : Doc) (vs : List Bool) : Bool :=
   (d.kids.zip vs).any (fun pv => pv.1.1 = "headers" &&
-    ((hasSwallow T o .encoding "identifier:headers" && !identOK (keyOf pv.1.2)) ||
-     (hasSwallow T o .encoding "headers" && !pv.2)))
+    ((hasSwallow T o d.attrs .encoding "identifier:headers" && !identOK (keyOf pv.1.2)) ||
+     (hasSwallow T o d.attrs .encoding "headers" && !pv.2)))
 
 def encodingOKCode (T : Table) (o : Opts) (d : Doc) (vs : List Bool) : Bool :=
   if encHeadersBad T o d vs then true
@@ -639,8 +657,8 @@ def schemaOKCode (T : Table) (o : Opts) (d : Doc) : Bool :=
   let a := d.attrs
   if a.flag "readOnly" && a.flag "writeOnly" then false
   else if !((a.list "type").all (schemaTypeOKCode o a (d.hasKid "items"))) then false
-  else if hasCheck T o .schema "default" && !schemaDefaultsOK a then false
-  else if hasCheck T o .schema "example" && !schemaExamplesOK a then false
+  else if hasCheck T o a .schema "default" && !schemaDefaultsOK a then false
+  else if hasCheck T o a .schema "example" && !schemaExamplesOK a then false
   else checkExt T o d
 
 /-- `SecurityScheme.Validate` up to its final `validateExtensions` -/
@@ -695,7 +713,7 @@ def componentPositions : List String :=
 
 def componentsOKCode (T : Table) (o : Opts) (d : Doc) : Bool :=
   componentPositions.all (fun p =>
-    if hasCheck T o .components ("identifier:" ++ p) then (d.kidsAt p).all (fun c => identOK (keyOf c)) else true) &&
+    if hasCheck T o d.attrs .components ("identifier:" ++ p) then (d.kidsAt p).all (fun c => identOK (keyOf c)) else true) &&
   checkExt T o d
 
 /-- the local checks of each `Validate` method, in the code's order -/
